@@ -4,7 +4,7 @@ use crate::UCanonicalGoal;
 use chalk_ir::{interner::Interner, NoSolution};
 use chalk_ir::{Canonical, ConstrainedSubst, Goal, InEnvironment, UCanonical};
 use chalk_ir::{Constraints, Fallible};
-use chalk_solve::{coinductive_goal::IsCoinductive, RustIrDatabase, Solution};
+use chalk_solve::{coinductive_goal::IsCoinductive, Guidance, RustIrDatabase, Solution};
 use std::fmt;
 
 /// A Solver is the basic context in which you can propose goals for a given
@@ -92,7 +92,14 @@ impl<I: Interner> SolverStuff<UCanonicalGoal<I>, Fallible<Solution<I>>> for &dyn
             // Subtle: if our current answer is ambiguous, we can just stop, and
             // in fact we *must* -- otherwise, we sometimes fail to reach a
             // fixed point. See `multiple_ambiguous_cycles` for more.
+            //
+            // The exception is an ambiguous answer with *definite* guidance:
+            // that guidance claims to cover every solution, but it was computed
+            // against the previous answer for the cyclic subgoals, which may
+            // have excluded whole clauses (they failed on the initial "no
+            // solution" assumption). Keep iterating until it is stable.
             match &current_answer {
+                Ok(Solution::Ambig(Guidance::Definite(_))) => false,
                 Ok(s) => s.is_ambig(),
                 Err(_) => false,
             }
